@@ -45,17 +45,40 @@ def close(a, b, tol=1e-9):
     return bool(((a - b).abs() <= tol * torch.clamp(b.abs(), min=1.0)).all())
 
 
-def check_arch(rec, name, model, X, R, seed, stats, nested_mode=0):
+def _observer(module, inputs, output):
+    """a caller's own passive forward hook (activation recording)"""
+    return None
+
+
+def check_arch(rec, name, model, X, R, seed, stats, nested_mode=0, user_hooks=False, ref_dtype=None):
     from tangermeme.deep_lift_shap import deep_lift_shap
     n_out = model[-1].out_features
     flat = model
     if nested_mode:
         model = D.nest(flat, nested_mode)       # same layer objects, nested containers / custom wrapper
     model.train()
+    handles = []
+    if user_hooks:
+        # the caller observes every activation (and the first layer) with forward hooks of their own: the rules still apply
+        for m in flat:
+            if type(m).__name__ in D.ACTS or m is flat[0]:
+                handles.append(m.register_forward_hook(_observer))
+    try:
+        _check_arch(rec, name, model, flat, X, R, seed, stats, ref_dtype)
+    finally:
+        for h in handles:
+            h.remove()
+
+
+def _check_arch(rec, name, model, flat, X, R, seed, stats, ref_dtype):
+    from tangermeme.deep_lift_shap import deep_lift_shap
+    n_out = flat[-1].out_features
     Xr = X[:, None].expand(-1, R.shape[1], -1, -1).reshape(-1, *X.shape[1:])
     Rr = R.reshape(-1, *R.shape[2:])
     import copy
     ref_model = copy.deepcopy(flat)
+    # the references may be stored in another floating type than X (one-hot / 0 / 0.25 values are exact in every float type)
+    Rcall = R if ref_dtype is None else R.to(ref_dtype)
     for target in range(n_out):
         exp, band, nder = D.rescale_multipliers(ref_model, Xr, Rr, target)
         stats["derivative_entries"] += nder
@@ -64,7 +87,7 @@ def check_arch(rec, name, model, X, R, seed, stats, nested_mode=0):
             continue
         exp = exp.reshape(R.shape)
         case = dict(fn="deep_lift_shap", arch=name, L=X.shape[-1], target=target, weights_seed=seed)
-        st, raw = call(deep_lift_shap, model, X, target=target, references=R, batch_size=7, raw_outputs=True, device="cpu")
+        st, raw = call(deep_lift_shap, model, X, target=target, references=Rcall, batch_size=7, raw_outputs=True, device="cpu")
         stats["calls"] += 1
         if st != "ok":
             rec.violation("dls:raises", case, observed=raw)
@@ -76,11 +99,11 @@ def check_arch(rec, name, model, X, R, seed, stats, nested_mode=0):
             return
         # processed / hypothetical outputs are the documented functions of the multipliers
         hyp = torch.stack([((torch.eye(D.A, dtype=torch.float64)[k][None, None, :, None] - R) * exp).sum(dim=2) for k in range(D.A)], dim=2).mean(dim=1)
-        st, h = call(deep_lift_shap, model, X, target=target, references=R, batch_size=64, hypothetical=True, device="cpu")
+        st, h = call(deep_lift_shap, model, X, target=target, references=Rcall, batch_size=64, hypothetical=True, device="cpu")
         if st != "ok" or not close(h, hyp):
             rec.violation("dls:hypothetical_differs", case, observed=h if st != "ok" else None)
             return
-        st, a = call(deep_lift_shap, model, X, target=target, references=R, batch_size=5, device="cpu")
+        st, a = call(deep_lift_shap, model, X, target=target, references=Rcall, batch_size=5, device="cpu")
         if st != "ok" or not close(a, hyp * X):
             rec.violation("dls:attributions_differ", case, observed=a if st != "ok" else None)
             return
@@ -144,6 +167,12 @@ def run_arch(rec, sh, tier, seed):
                 check_arch(rec, "%s|w%d|nested%d" % (name, ws, 1 + (n // 3) % 2), model, X, R, seed, stats, nested_mode=1 + (n // 3) % 2)
             if n % 4 == 1:
                 override_then_default(rec, "%s|w%d" % (name, ws), model, X, R, seed, stats)
+            if n % 5 == 2:
+                rec.count("programs_with_user_hooks")
+                check_arch(rec, "%s|w%d|userhooks" % (name, ws), model, X, R, seed, stats, user_hooks=True)
+            if n % 5 == 4:
+                rec.count("programs_with_float32_references")
+                check_arch(rec, "%s|w%d|ref32" % (name, ws), model, X, R, seed, stats, ref_dtype=torch.float32)
     for k, v in stats.items():
         rec.count(k, v)
     rec.sample(dict(skeleton=sk, L=L, architectures=n, example=archs[len(archs) // 2][0] if archs else None))
@@ -164,11 +193,12 @@ def run_affine(rec, tier, seed):
                 for bias_shift in (0.0, 7.5):
                     with torch.no_grad():
                         model[-1].bias.add_(bias_shift)
-                    st, raw = call(deep_lift_shap, model, X, target=target, references=R, raw_outputs=True, device="cpu")
-                    st2, attr = call(deep_lift_shap, model, X, target=target, references=R, device="cpu", batch_size=11)
-                    rec.case(1, 1)
-                    if st != "ok" or st2 != "ok" or not close(raw, exp_m) or not close(attr, exp_attr):
-                        rec.violation("dls:affine_closed_form", dict(case, bias_shift=bias_shift), observed=raw if st != "ok" else None)
+                    for rdt in (torch.float64, torch.float32):
+                        st, raw = call(deep_lift_shap, model, X, target=target, references=R.to(rdt), raw_outputs=True, device="cpu")
+                        st2, attr = call(deep_lift_shap, model, X, target=target, references=R.to(rdt), device="cpu", batch_size=11)
+                        rec.case(1, 1)
+                        if st != "ok" or st2 != "ok" or not close(raw, exp_m, 1e-12) or not close(attr, exp_attr, 1e-12):
+                            rec.violation("dls:affine_closed_form", dict(case, bias_shift=bias_shift, references_dtype=str(rdt)), observed=raw if st != "ok" else None)
                     with torch.no_grad():
                         model[-1].bias.sub_(bias_shift)
                 rec.observe(L, ws, target)
@@ -248,7 +278,8 @@ def replay(v):
         X, R = D.inputs(c["L"], c.get("weights_seed", 0))
         model = D.build(sk, acts, convs, pool, c["L"], 2, ws)
         check_arch(rec, c["arch"], model, X, R, c.get("weights_seed", 0), dict(calls=0, ok=0, skipped_unbuildable=0, excluded_band=0, derivative_entries=0),
-                   nested_mode=int(c["arch"][-1]) if "|nested" in c["arch"] else 0)
+                   nested_mode=int(c["arch"][-1]) if "|nested" in c["arch"] else 0, user_hooks="|userhooks" in c["arch"],
+                   ref_dtype=torch.float32 if "|ref32" in c["arch"] else None)
     elif c.get("arch", "").startswith("affine"):
         run_affine(rec, "quick", 0)
     else:
